@@ -7,6 +7,7 @@
    variable reference of the debug templates with its filters. *)
 From Coq Require Import List String Ascii Bool Arith ZArith.
 Import ListNotations.
+From ClasticV Require Import Gen.MiscShape.
 From ClasticV Require Import Base.Py Base.Strs Base.Sx Model.Errors Gen.ErrorsGen Gen.Templates Proofs.ErrorsProofs.
 Local Open Scope list_scope.
 Local Open Scope string_scope.
@@ -95,3 +96,84 @@ Example C09_example :
   "<body><h1>Not &lt;found&gt;</h1>" ++ nl ++ "<p>a &amp; &quot;b&quot;</p>" ++ nl ++
   "<p>Error type: <a target=""_blank"" href=""http://x/?a=&#x27;1&#x27;"">http://x/?a=&#x27;1&#x27;</a></p>" ++ nl ++ "</body></html>".
 Proof. vm_compute. reflexivity. Qed.
+
+(* obligation on the source: the methods of HTTPException / InternalServerError that Model/Errors.v and the regenerated templates describe, statement by statement *)
+Theorem C09_errors_shape :
+  SK_HTTPEXCEPTION_INIT =
+  ["self.detail = detail or self.detail";
+   "self.message = kwargs.pop('message', self.message)";
+   "self.code = kwargs.pop('code', self.code)";
+   "self.error_type = kwargs.pop('error_type', None)";
+   "self.is_breaking = kwargs.pop('is_breaking', True)";
+   "self.source_route = kwargs.pop('source_route', None)";
+   "headers = kwargs.pop('headers', None)";
+   "mimetype = kwargs.pop('mimetype', DEFAULT_MIME)";
+   "content_type = kwargs.pop('content_type', None)";
+   "super(HTTPException, self).__init__(response=self.to_text(), status=self.code, headers=headers, mimetype=DEFAULT_MIME, content_type=content_type)";
+   "if mimetype != DEFAULT_MIME";
+   "  self.adapt(mimetype)";
+   "return"] /\
+  SK_HTTPEXCEPTION_ADAPT =
+  ["try";
+   "  fmt_name = MIME_SUPPORT_MAP[mimetype]";
+   "except KeyError";
+   "  fmt_name, mimetype = ('text', 'text/plain')";
+   "_method = getattr(self, 'to_' + fmt_name)";
+   "self.data = _method()";
+   "self.headers['Content-Type'] = get_content_type(mimetype, self.charset)"] /\
+  SK_HTTPEXCEPTION_TO_DICT =
+  ["ret = {'detail': self.detail, 'message': self.message, 'code': self.code, 'error_type': self.error_type}";
+   "return ret"] /\
+  SK_HTTPEXCEPTION_TO_ESCAPED_DICT =
+  ["ret = {}";
+   "for (k, v) in self.to_dict().items()";
+   "  if v is None";
+   "    ret[k] = ''";
+   "    continue";
+   "  try";
+   "    ret[k] = html_escape(v, True)";
+   "  except Exception as e";
+   "    ret[k] = html_escape(repr(v), True)";
+   "return ret"] /\
+  SK_HTTPEXCEPTION_TO_JSON =
+  ["encoder = ClasticJSONEncoder(dev_mode=True, indent=indent, sort_keys=sort_keys, ensure_ascii=False, skipkeys=skipkeys)";
+   "return encoder.encode(self.to_dict())"] /\
+  SK_HTTPEXCEPTION_TO_TEXT =
+  ["lines = ['%s - %s' % (self.code, self.message)]";
+   "if self.detail";
+   "  lines.extend(['', self.detail])";
+   "if self.error_type";
+   "  lines.extend(['', 'Error type: %s' % self.error_type])";
+   "return '\n'.join(lines)"] /\
+  SK_HTTPEXCEPTION_TO_HTML =
+  ["params = self.to_escaped_dict()";
+   "lines = ['<!doctype html><html>', '<head><title>{code} - {message}</title></head>', '<body><h1>{message}</h1>']";
+   "if params['detail']";
+   "  lines.append('<p>{detail}</p>')";
+   "if params['error_type']";
+   "  if params['error_type'].startswith('http')";
+   "    lines.append('<p>Error type: <a target=""_blank"" href=""{error_type}"">{error_type}</a></p>')";
+   "  else";
+   "    lines.append('<p>Error type: {error_type}</p>')";
+   "lines.append('</body></html>')";
+   "return '\n'.join(lines).format(**params)"] /\
+  SK_HTTPEXCEPTION_TO_XML =
+  ["params = self.to_escaped_dict()";
+   "ret = '<http_error><code>{code}</code><message>{message}</message><detail>{detail}</detail><error_type>{error_type}</error_type></http_error>'.format(**params)";
+   "return ret"] /\
+  SK_INTERNALSERVERERROR_INIT =
+  ["self.exc_info = kwargs.pop('exc_info', None)";
+   "super(InternalServerError, self).__init__(detail, **kwargs)";
+   "if self.error_type is None";
+   "  try";
+   "    exc_type_name = self.exc_info.exc_type";
+   "    exc_type = getattr(exceptions, exc_type_name)";
+   "    self.error_type = STDLIB_EXC_URL + exc_type.__name__";
+   "  except Exception";
+   "    pass"] /\
+  SK_INTERNALSERVERERROR_TO_DICT =
+  ["ret = super(InternalServerError, self).to_dict()";
+   "ret['exc_info'] = glom(self, T.exc_info.to_dict(), skip_exc=Exception)";
+   "return ret"].
+Proof. repeat split; reflexivity. Qed.
+Print Assumptions C09_errors_shape.
